@@ -192,6 +192,50 @@ theorem C11_record_flush_bit (k : RKind) (r : Wire.Encode.ERecord) (h : builtBy 
   obtain ⟨_, hb, _, hd⟩ := C11_flush_bit_iff_not_ptr k
   exact ⟨hb, by rw [hd]; decide⟩
 
+/-! ## every block of the host: the logical datagrams of `Host.step`, realised on the sockets
+
+`Props/C11.lean` and `Props/C12*.lean` speak about the logical datagrams `r.outs` of `Host.step` (which records, when).  One equation
+carries all of it to the sockets: in every accepted block, from every host state, what is written is exactly — in order — each
+logical multicast once per socket of `engine.senders` (group address of the socket's family, port 5353, no questions, id 0,
+flags 0x8400), and each logical unicast once on the receiving socket to the complete source sockaddr (`realize`). -/
+
+/-- **Closed form of a block.**  (`QsOK`: the number of questions the routing model was told for the first packet is the length
+of the question section the world holds for that datagram.) -/
+theorem C11_host_physical (w : World) {h : Host} {e : Ev} {r : StepOut} {ds : List (Sent Content)}
+    (hs : step w h e = .ok (r, ds)) (hq : ∀ p, blockFirst h e = some p → w.QsOK p) :
+    h.step e = .ok r ∧ ds = r.outs.flatMap (realize w (blockFirst h e)) := step_physical w hs hq
+
+/-- in particular nothing but the receiving socket ever carries a unicast reply, and every multicast message of every block —
+immediate or flushed from a queue — is on every socket, without questions -/
+theorem C11_host_sockets (w : World) {h : Host} {e : Ev} {r : StepOut} {ds : List (Sent Content)}
+    (hs : step w h e = .ok (r, ds)) (hq : ∀ p, blockFirst h e = some p → w.QsOK p) :
+    ∀ d ∈ ds, (d.packet.multicast = false → d.sock = w.rx.id) ∧
+      (d.packet.multicast = true → d.packet.questions = [] ∧ d.packet.id = 0 ∧ d.packet.flags = 0x8400 ∧
+        ∃ a b, Out.mcast a b ∈ r.outs ∧ d.packet.answers = a ∧ d.packet.adds = b ∧
+          ∀ s ∈ w.senders, ∃ d' ∈ ds, d'.sock = s.id ∧ d'.dest = groupDest s ∧ d'.packet = d.packet) := by
+  obtain ⟨_, rfl⟩ := step_physical w hs hq
+  intro d hd
+  rw [List.mem_flatMap] at hd
+  obtain ⟨o, ho, hd⟩ := hd
+  cases o with
+  | mcast a b =>
+    simp only [realize, List.mem_map] at hd
+    obtain ⟨s, _, rfl⟩ := hd
+    refine ⟨fun hh => by simp at hh, fun _ => ⟨rfl, rfl, rfl, a, b, ho, rfl, rfl, ?_⟩⟩
+    intro s' hs'
+    refine ⟨{ sock := s'.id, dest := groupDest s',
+              packet := { flags := 0x8400, multicast := true, id := 0, questions := [], answers := a, adds := b } },
+      List.mem_flatMap.mpr ⟨_, ho, ?_⟩, rfl, rfl, rfl⟩
+    simp only [realize, List.mem_map]
+    exact ⟨s', hs', rfl⟩
+  | ucast addr port id nq a b =>
+    simp only [realize] at hd
+    split at hd
+    · simp only [List.mem_singleton] at hd
+      rw [hd]
+      exact ⟨fun _ => rfl, fun hh => by simp at hh⟩
+    · cases hd
+
 /-! ## non-vacuity: a host with an IPv4 and two IPv6 sockets; a legacy query arrives on the second IPv6 socket from a
 link-local peer with flowinfo 7, scope id 9 -/
 def exWorld : World :=
@@ -205,6 +249,10 @@ def exPkt : Pkt := { dataId := 1, now := 1000, id := 77, flags := 0, numAuth := 
                      items := [{ qu := false, cands := [{ id := 5, ttl := 4500, adds := [6] }] }], known := [] }
 
 example : exWorld.SameFamily 1 := by decide
+example : exWorld.QsOK exPkt := by decide
+/-- a whole block: the datagram arrives at a fresh host, is answered by unicast on socket 12 and queued for multicast (one draw) -/
+example : (step exWorld {} (.rx 1000 1 40000 1 60 false (.query exPkt) [] [20])).toOption.map (fun x => (x.1.outs, x.2.map (fun d => (d.sock, d.dest)))) =
+    some ([Out.ucast 1 40000 77 1 [5] [6]], [(12, ⟨.peer 1 true, 40000, some (7, 9)⟩)]) := by decide
 /-- one unicast datagram on socket 12 to the complete source sockaddr with the question echoed; the multicast goes out queued
 (PTR question, aggregated), so nothing else leaves in the block -/
 example : assemble exWorld [exPkt] 1 40000 [] =
